@@ -239,18 +239,27 @@ impl<'a> CompilerState<'a> {
         v
     }
 
-    pub fn syntax_error(&self, message: &str, loc: usize) -> Error {
+    // Index in mapped_lines of the preprocessed line containing offset loc
+    fn line_of(&self, loc: usize) -> usize {
         let mut line_number: usize = 0;
         let mut char_number = 0;
         for c in self.preprocessed_utf8.chars() {
+            if char_number == loc {
+                break;
+            }
             if c == '\n' {
                 line_number += 1;
             }
             char_number += 1;
-            if char_number == loc {
-                break;
-            }
         }
+        if line_number >= self.mapped_lines.len() {
+            line_number = self.mapped_lines.len().saturating_sub(1);
+        }
+        line_number
+    }
+
+    pub fn syntax_error(&self, message: &str, loc: usize) -> Error {
+        let line_number = self.line_of(loc);
         let included_in = self.mapped_lines[line_number]
             .2
             .as_ref()
@@ -264,17 +273,7 @@ impl<'a> CompilerState<'a> {
     }
 
     pub fn compiler_error(&self, message: &str, loc: usize) -> Error {
-        let mut line_number: usize = 0;
-        let mut char_number = 0;
-        for c in self.preprocessed_utf8.chars() {
-            if c == '\n' {
-                line_number += 1;
-            }
-            char_number += 1;
-            if char_number == loc {
-                break;
-            }
-        }
+        let line_number = self.line_of(loc);
         let included_in = self.mapped_lines[line_number]
             .2
             .as_ref()
@@ -288,17 +287,7 @@ impl<'a> CompilerState<'a> {
     }
 
     pub fn warning(&self, msg: &str, loc: usize) -> () {
-        let mut line_number: usize = 0;
-        let mut char_number = 0;
-        for c in self.preprocessed_utf8.chars() {
-            if c == '\n' {
-                line_number += 1;
-            }
-            char_number += 1;
-            if char_number == loc {
-                break;
-            }
-        }
+        let line_number = self.line_of(loc);
         let included_in = self.mapped_lines[line_number]
             .2
             .as_ref()
@@ -1247,7 +1236,7 @@ impl<'a> CompilerState<'a> {
                                     VariableType::Char => VariableType::CharPtr,
                                     _ => {
                                         return Err(self
-                                            .syntax_error("Type too complex not supported", start))
+                                            .syntax_error("Type too complex not supported", p.as_span().start()))
                                     }
                                 }
                             }
@@ -1769,7 +1758,7 @@ impl<'a> CompilerState<'a> {
                                             _ => {
                                                 return Err(self.syntax_error(
                                                     "Type too complex not supported",
-                                                    start,
+                                                    p.as_span().start(),
                                                 ))
                                             }
                                         }
@@ -2096,7 +2085,7 @@ impl<'a> CompilerState<'a> {
                                         _ => {
                                             return Err(self.syntax_error(
                                                 "Type too complex not supported",
-                                                start,
+                                                pair.as_span().start(),
                                             ))
                                         }
                                     }
